@@ -222,7 +222,10 @@ macro_rules! coerce_roundtrip {
             let bits_fn = $bits;
             let ok_to = matches!(&to, Ok(Value::$iovar(b)) if (*b as u64) == bits_fn(v));
             assert!(ok_to, "coerce_to_io yields the raw bit pattern in the image-sized bit string");
-            let raw = match to { Ok(x) => x, Err(_) => unreachable!() };
+            // rebuild the raw image value by reference (moving a Value out of a Result with a symbolic
+            // discriminant makes CBMC unwind Value's drop glue without bound)
+            let raw = match &to { Ok(Value::$iovar(b)) => Value::$iovar(*b), _ => Value::Null };
+            std::mem::forget(to);
             let back = coerce_from_io(raw, TypeId::$tid);
             let ok_back = matches!(&back, Ok(Value::$var(w)) if bits_fn(*w) == bits_fn(v));
             std::mem::forget(back);
